@@ -159,6 +159,17 @@ def run(tier):
         tiny.append(([a], [" ".join(ws2)]))
         tiny.append(([a], [a.replace(" ", "  ", 3)]))                 # whitespace-only difference: may pair
     batches(tiny, 0, "w")
+    # lines that differ by one long interior run of blanks only (re-aligned assignments, tables): distance 0 however different
+    # the widths are; alone, and in front of a more distant candidate
+    wide = []
+    for i in range(12 if tier == "quick" else 120):
+        r2 = random.Random(core.seed() * 4447 + i)
+        name, n = r2.choice(["x", "alpha", "k9"]), r2.choice([12, 30, 45])
+        a, b = f"{name} = {i}", f"{name}{' ' * n}= {i}"
+        wide.append(([a], [b]) if i % 2 else ([b], [a]))
+        wide.append(([a], [b, f"{name} = {i}7"]))
+    batches(wide, 60, "w")
+    batches(wide, 0, "w")
     # lines of several hundred tokens (a table of small numbers: every number and every blank is a token) with one change near
     # the end: the emphasis is that one token, however long the line
     table = []
@@ -193,6 +204,12 @@ def run(tier):
     LONGRUN = [([f"alpha{i} beta" for i in range(1, 41)], [f"gamma{i} beta" for i in range(1, 41)])]
     plans.append((ZW, 0, "w", ()))
     plans.append((LONGRUN, 100, "w", ()))
+    # runs that just fit the line buffer (a run of exactly --line-buffer-size removed lines still pairs), default size and small sizes
+    run_of = lambda n: ([f"alpha{i} beta" for i in range(1, n + 1)], [f"gamma{i} beta" for i in range(1, n + 1)])
+    plans.append(([run_of(n) for n in (31, 32)], 100, "w", ()))
+    plans.append(([run_of(n) for n in (3, 4)], 100, "w", ("--line-buffer-size", "4")))
+    plans.append(([run_of(1)], 100, "w", ("--line-buffer-size", "1")))
+    plans.append(([run_of(1), run_of(2)], 100, "w", ("--line-buffer-size", "2")))
 
     def one(plan):
         cases, thr, re = plan[:3]
